@@ -1,6 +1,7 @@
 package main
 
 import (
+	"encoding/json"
 	"flag"
 	"fmt"
 	"os"
@@ -64,6 +65,14 @@ func main() {
 			os.Exit(1)
 		}
 		fmt.Println("HOLDS")
+	case "c08site":
+		// one conversion site, run in a child process of the checkptr build (a checkptr abort is fatal)
+		var s castSite
+		if err := json.Unmarshal([]byte(os.Args[2]), &s); err != nil {
+			os.Exit(2)
+		}
+		_, viol := c08Site(s)
+		fmt.Println(viol)
 	default:
 		os.Exit(2)
 	}
